@@ -63,6 +63,9 @@ Forms == [
   closure1     |-> <<"|", "a", "|", "a">>,
   closure2     |-> <<"|", "a", ",", "b", "|", "a", "+", "b">>,
   moveclosure  |-> <<"move", "|", "a", ",", "b", "|", "a">>,
+  \* closures introduced by other keywords: the `|` after `async` / `async move` opens a parameter list as well
+  asyncclosure |-> <<"async", "|", "a", ",", "b", "|", "a">>,
+  asyncmove    |-> <<"async", "move", "|", "a", ",", "b", "|", "a">>,
   less         |-> <<"a", "<", "b">>,
   greater      |-> <<"c", ">", "d">>,
   lesseq       |-> <<"a", "<", "=", "b">>,
@@ -175,7 +178,7 @@ DocSplit(args) == DocFrom(args, 1, 1)
 (* (KD1 `x as M<K, V>` and KD3 `f::<fn() -> B, A>()` were repaired.)       *)
 (***************************************************************************)
 KD1(args) == ~CastFix /\ \E j \in 1..Len(args) : args[j].form = "castgeneric2"
-BarForms == {"binor", "binor2", "oror", "closure0", "closure1", "closure2", "moveclosure"}
+BarForms == {"binor", "binor2", "oror", "closure0", "closure1", "closure2", "moveclosure", "asyncclosure", "asyncmove"}
 KD2(args) == \E j \in 1..Len(args) : args[j].form \in {"binor", "binor2"}
                /\ \E k \in 1..Len(args) : k # j /\ args[k].form \in BarForms
 KD3(args) == ~ArrowFix /\ \E j \in 1..Len(args) : args[j].form = "turbofnptr2"
